@@ -471,23 +471,185 @@ Definition gen_spec_ok (c : gen_case) : bool :=
   | _, _ => false
   end.
 
-Inductive case := CDep (c : dep_case) | CRed (c : red_case) | CGen (c : gen_case).
+(* ================================================================== *)
+(* the production generator (NewProposalGenerator) on one window       *)
+(* ================================================================== *)
+(* cmd/start.go builds ONE ProposalGenerator per node: tasks DepositSweep (action 2), Redemption
+   (3), Heartbeat (1), MovingFunds (4), MovedFundsSweep (5), in this order.  The driver's
+   checklists use the actions 0 (no-op: no task), 1, 2, 3 and unsupported numbers >= 6.
+   Proposal ids of the abstract [generate]: the action number. *)
+Inductive pout := PSweep (l : list deposit) | PRedeem (l : list N) | PHeartbeat
+                | PNoop | PErr | PPanic.
+Record pg_case := {
+  pg_dep : dep_case;       (* deposit side of the window's chain state; dc_to_sweep = true,
+                              dc_max = GetDepositSweepMaxSize; dc_out is not used *)
+  pg_red : red_case;       (* redemption side; rc_limit = GetRedemptionMaxSize; rc_out not used *)
+  pg_hb_valid : bool;      (* ValidateHeartbeatProposal succeeds *)
+  pg_checklist : list N;
+  pg_out : pout            (* observed *)
+}.
+Definition with_dout (c : dep_case) (o : dres) : dep_case :=
+  {| dc_now := dc_now c; dc_min_age := dc_min_age c; dc_events := dc_events c;
+     dc_reqs := dc_reqs c; dc_confs := dc_confs c; dc_wallet := dc_wallet c; dc_max := dc_max c;
+     dc_skip_swept := dc_skip_swept c; dc_skip_unconf := dc_skip_unconf c;
+     dc_to_sweep := dc_to_sweep c; dc_out := o |}.
+Definition with_rout (c : red_case) (o : rres) : red_case :=
+  {| rc_now := rc_now c; rc_current := rc_current c; rc_min_age := rc_min_age c;
+     rc_timeout := rc_timeout c; rc_abt := rc_abt c; rc_events := rc_events c;
+     rc_pending := rc_pending c; rc_delay := rc_delay c; rc_wallet := rc_wallet c;
+     rc_limit := rc_limit c; rc_out := o |}.
+Definition nonempty {A} (l : list A) : bool := match l with [] => false | _ => true end.
 
-Definition judge (c : case) : verdict :=
-  match c with
-  | CDep c => decide (dep_spec_ok c) (dres_eqb (dc_out c) (model_deposits c))
-  | CRed c =>
-      let obs := match rc_out c with RedOk l => l | _ => [] end in
-      decide (red_spec_ok c) (rres_eqb (rc_out c) (model_redemptions c obs))
-  | CGen c =>
-      let '(r, tr) := generate (gc_tasks c) (gc_checklist c) in
-      decide (gen_spec_ok c) (gres_eqb (gc_out c) r && listN_eqb (gc_trace c) tr)
+Definition pg_obs (c : pg_case) : list N := match pg_out c with PRedeem l => l | _ => [] end.
+(* DepositSweepTask.Run / RedemptionTask.Run / HeartbeatTask.Run on the window's chain state *)
+Definition pg_sweep_out (c : pg_case) : task_out :=
+  match model_deposits (pg_dep c) with
+  | DepOk [] => TNone | DepOk _ => TProp 2 | _ => TErr
+  end.
+Definition pg_redeem_out (c : pg_case) : task_out :=
+  match model_redemptions (pg_red c) (pg_obs c) with
+  | RedOk [] => TNone | RedOk _ => TProp 3 | _ => TErr
+  end.
+Definition pg_hb_ok (c : pg_case) : bool :=
+  match rc_current (pg_red c) with Some _ => pg_hb_valid c | None => false end.
+Definition pg_tasks (c : pg_case) : list task :=
+  [ {| tk_action := 2; tk_out := pg_sweep_out c |};
+    {| tk_action := 3; tk_out := pg_redeem_out c |};
+    {| tk_action := 1; tk_out := if pg_hb_ok c then TProp 1 else TErr |} ].
+Definition model_pg (c : pg_case) : pout :=
+  match fst (generate (pg_tasks c) (pg_checklist c)) with
+  | GNoop => PNoop
+  | GErr => PErr
+  | GProp p =>
+      if N.eqb p 2 then match model_deposits (pg_dep c) with DepOk l => PSweep l | _ => PPanic end
+      else if N.eqb p 3 then match model_redemptions (pg_red c) (pg_obs c) with
+                             | RedOk l => PRedeem l | _ => PPanic end
+      else PHeartbeat
+  end.
+Definition pout_eqb (a b : pout) : bool :=
+  match a, b with
+  | PSweep x, PSweep y => deposits_eqb x y
+  | PRedeem x, PRedeem y => listN_eqb x y
+  | PHeartbeat, PHeartbeat | PNoop, PNoop | PErr, PErr | PPanic, PPanic => true
+  | _, _ => false
   end.
 
-Inductive explained := XDep (r : dres) | XRed (r : rres) | XGen (r : gres * list N).
+(* the property on one window, evaluated against THAT window's chain state: walking the
+   checklist, every action before the deciding one yields nothing according to the deposit /
+   redemption specification (no eligible deposit / request), and the deciding action's
+   specification accepts the observed proposal (or allows the error); no-op iff none decides *)
+Definition dep_allows (c : pg_case) (o : dres) : bool := dep_spec_ok (with_dout (pg_dep c) o).
+Definition red_allows (c : pg_case) (o : rres) : bool := red_spec_ok (with_rout (pg_red c) o).
+Definition pg_decides (c : pg_case) (a : N) : bool :=
+  if N.eqb a 2 then
+    match pg_out c with
+    | PSweep l => nonempty l && dep_allows c (DepOk l)
+    | PErr => dep_allows c DepErrChain || dep_allows c DepErrNoRequest || dep_allows c DepErrWallet
+    | _ => false
+    end
+  else if N.eqb a 3 then
+    match pg_out c with
+    | PRedeem l => nonempty l && red_allows c (RedOk l)
+    | PErr => red_allows c RedErrChain || red_allows c RedErrWallet
+    | _ => false
+    end
+  else if N.eqb a 1 then
+    match pg_out c with
+    | PHeartbeat => pg_hb_ok c
+    | PErr => negb (pg_hb_ok c)
+    | _ => false
+    end
+  else false.
+Definition pg_skips (c : pg_case) (a : N) : bool :=
+  if N.eqb a 2 then dep_allows c (DepOk [])
+  else if N.eqb a 3 then red_allows c (RedOk [])
+  else negb (N.eqb a 1).
+Fixpoint pg_walk (c : pg_case) (cl : list N) : bool :=
+  match cl with
+  | [] => match pg_out c with PNoop => true | _ => false end
+  | a :: rest => pg_decides c a || (pg_skips c a && pg_walk c rest)
+  end.
+Definition pg_spec_ok (c : pg_case) : bool := pg_walk c (pg_checklist c).
+(* well-formed window: one wallet, the sweep task's search, only modelled actions *)
+Definition pg_wf (c : pg_case) : bool :=
+  N.eqb (dc_wallet (pg_dep c)) (rc_wallet (pg_red c)) && dc_to_sweep (pg_dep c)
+  && forallb (fun a => negb (N.eqb a 4 || N.eqb a 5)) (pg_checklist c).
+
+Inductive case := CDep (c : dep_case) | CRed (c : red_case) | CGen (c : gen_case)
+                | CPG (c : pg_case).
+
+Inductive explained := XDep (r : dres) | XRed (r : rres) | XGen (r : gres * list N)
+                     | XPG (r : pout).
+(* the model's output on one case = one window: a function of that window's state only *)
 Definition explain (c : case) : explained :=
   match c with
   | CDep c => XDep (model_deposits c)
   | CRed c => XRed (model_redemptions c (match rc_out c with RedOk l => l | _ => [] end))
   | CGen c => XGen (generate (gc_tasks c) (gc_checklist c))
+  | CPG c => XPG (model_pg c)
+  end.
+
+Definition wf_of (c : case) : bool := match c with CPG c => pg_wf c | _ => true end.
+(* the property, on the implementation's observed output of the window *)
+Definition spec_of (c : case) : bool :=
+  match c with
+  | CDep c => dep_spec_ok c
+  | CRed c => red_spec_ok c
+  | CGen c => gen_spec_ok c
+  | CPG c => pg_spec_ok c
+  end.
+(* the observed output of the window against a model output *)
+Definition agree_with (c : case) (o : explained) : bool :=
+  match c, o with
+  | CDep c, XDep r => dres_eqb (dc_out c) r
+  | CRed c, XRed r => rres_eqb (rc_out c) r
+  | CGen c, XGen (r, tr) => gres_eqb (gc_out c) r && listN_eqb (gc_trace c) tr
+  | CPG c, XPG r => pout_eqb (pg_out c) r
+  | _, _ => false
+  end.
+Definition agree_of (c : case) : bool := agree_with c (explain c).
+
+Definition judge (c : case) : verdict :=
+  if wf_of c then decide (spec_of c) (agree_of c) else BadCase.
+
+(* ================================================================== *)
+(* window histories on the long-lived objects                          *)
+(* ================================================================== *)
+(* cmd/start.go builds ONE ProposalGenerator per node (tbtcpg.NewProposalGenerator), hence one
+   DepositSweepTask, one RedemptionTask, one HeartbeatTask ..., and calls Generate on it at every
+   coordination window.  As written, a task is the pair of its chain handles and the generator
+   the list of its tasks; no method of deposit_sweep.go / redemptions.go / tbtcpg.go assigns to
+   a field or to a package-level variable.  The model threads the object through the windows
+   the way the node does; [window_st] returns it unchanged. *)
+Record node := { nd_chain : N; nd_btc : N; nd_actions : list N }.
+Definition window_st (n : node) (w : case) : explained * node := (explain w, n).
+Fixpoint history_st (n : node) (ws : list case) : list explained :=
+  match ws with
+  | [] => []
+  | w :: t => let '(o, n') := window_st n w in o :: history_st n' t
+  end.
+Definition production_node : node := {| nd_chain := 1; nd_btc := 2; nd_actions := [2; 3; 1; 4; 5]%N |}.
+
+(* the property for a history: at every window, the property of THAT window's chain state *)
+Definition hist_spec (ws : list case) : bool := forallb spec_of ws.
+Fixpoint agree_list (ws : list case) (outs : list explained) : bool :=
+  match ws, outs with
+  | [], [] => true
+  | w :: ws', o :: outs' => agree_with w o && agree_list ws' outs'
+  | _, _ => false
+  end.
+Definition hist_agree (ws : list case) : bool := agree_list ws (history_st production_node ws).
+
+Inductive anycase := COne (c : case) | CHist (ws : list case).
+Definition judge_any (a : anycase) : verdict :=
+  match a with
+  | COne c => judge c
+  | CHist ws => if nonempty ws && forallb wf_of ws
+                then decide (hist_spec ws) (hist_agree ws) else BadCase
+  end.
+Inductive explained_any := XOne (x : explained) | XHist (xs : list explained).
+Definition explain_any (a : anycase) : explained_any :=
+  match a with
+  | COne c => XOne (explain c)
+  | CHist ws => XHist (history_st production_node ws)
   end.
